@@ -148,8 +148,9 @@ Types2 == Types1 \cup {Ty(c, <<t>>) : c \in {"list", "dict", "opt"}, t \in Types
 Types3 == Types2 \cup {Ty(c, <<t>>) : c \in {"list", "dict", "opt"},
                         t \in {Ty("list", <<Ty("int", <<>>)>>), Ty("dict", <<Ty("float", <<>>)>>), Ty("list", <<Ty("float", <<>>)>>),
                                Ty("list", <<Ty("cfgK", <<>>)>>), Ty("dict", <<Ty("path", <<>>)>>)}}
-Integral == {"1.0", "2.0"}
-Scalars == {Val("int", "1"), Val("int", "0"), Val("float", "1.0"), Val("float", "0.5"), Val("str", "a"), Val("str", ""), Val("bool", "T"), NoneVal,
+Integral == {"1.0", "2.0", "-2.0"}
+IntOf == [f \in Integral |-> CASE f = "1.0" -> "1" [] f = "2.0" -> "2" [] f = "-2.0" -> "-2"]
+Scalars == {Val("int", "1"), Val("int", "0"), Val("float", "1.0"), Val("float", "0.5"), Val("float", "-1.5"), Val("float", "-2.0"), Val("str", "a"), Val("str", ""), Val("bool", "T"), NoneVal,
             Val("path", "a"), Val("enum", "RED"), Val("cfg", "K"), Val("cfg", "K2"), Val("cfg", "K2Old")}
 Lists1 == {ListV(<<>>)} \cup {ListV(<<a>>) : a \in Scalars} \cup {ListV(<<a, b>>) : a \in {Val("int", "1"), Val("float", "1.0"), Val("str", "a")}, b \in Scalars}
 Dicts1 == {DictV(<<>>)} \cup {DictV(<<<<k, a>>>>) : k \in {Val("str", "k"), Val("int", "1")}, a \in Scalars}
@@ -177,7 +178,7 @@ Coerce(v, t) ==
     [] t.c = "list" -> IF v.k = "list" THEN (LET r == CoerceSeq(v.items, t.args[1]) IN IF r = <<Reject>> THEN Reject ELSE ListV(r)) ELSE Reject
     [] t.c = "dict" -> IF v.k = "dict" THEN (LET r == CoerceKV(v.items, t.args[1]) IN IF r = <<Reject>> THEN Reject ELSE DictV(r)) ELSE Reject
     [] t.c = "int" -> IF v.k \in {"int", "bool"} THEN v                \* a bool is an int in Python
-                      ELSE IF v.k = "float" /\ v.s \in Integral THEN Val("int", IF v.s = "1.0" THEN "1" ELSE "2") ELSE Reject
+                      ELSE IF v.k = "float" /\ v.s \in Integral THEN Val("int", IntOf[v.s]) ELSE Reject
     [] t.c = "float" -> IF v.k = "float" THEN v
                         ELSE IF v.k = "int" THEN Val("float", IF v.s = "1" THEN "1.0" ELSE "0.0")
                         ELSE IF v.k = "bool" THEN Val("float", "1.0") ELSE Reject
